@@ -2,13 +2,17 @@
 from props import codec
 LEVEL = "other"
 EXPLANATION = (
-    "proved oracle + exploration: the brute-force specification (level-iteration BFS, reachability-restricted "
-    "eccentricities, diameter, radius over the radial vertices, default radial set) and its checker are proved in Coq "
-    "(C16_bfs_dist, C16_ecc_spec, C16_spec_checker_sound, C16_default_checker_sound) and the extracted checker is "
-    "applied to the implementation's output on every explored graph; the bound-refinement machine (BFS steps) is "
-    "proved to preserve its invariants for every pivot sequence and the exit conditions to give exact values "
-    "(C16_step_invariant, C16_exit_exact), but the SCC-based upper-bound step is stated only, so the algorithm proof "
-    "is not closed")
+    "proved oracle + exploration.  Proved in Coq: level-iteration BFS computes shortest distances (C16_bfs_dist); the "
+    "executable eccentricities, diameter, radius, default radial set are the documented reachability-restricted ones and the "
+    "checker accepts exactly the exact outputs with attaining vertices (C16_ecc_spec, C16_spec_checker_sound, "
+    "C16_default_checker_sound); for the directed variant every BFS step preserves lF<=ecc+<=uF, lB<=ecc-<=uB, dL<=D, R<=rU "
+    "for any pivot sequence and visiting order (C16_step_invariant, C16_run_invariant) and the exit conditions of every level "
+    "give exact values (C16_exit_exact, C16_machine_exact); for run_symm the same minus the radius clause "
+    "(C16_symm_step_invariant, C16_symm_exit_exact_partial).  Two genuine defects are proved on the model and reproduced on the "
+    "code (C16_radial_vertex_refuted, C16_symm_radius_refuted).  NOT proved: that the values all_cc_upper_bound derives from the "
+    "SCC DAG are upper bounds (only the abstract 'tightening preserves the invariant' step, C16_allcc_step_invariant_partial), "
+    "so the algorithm proof is not closed and the decision on every explored graph is made by the extracted proved checker "
+    "applied to the implementation's output")
 ASSUMPTIONS = [
     "the harness builds the transpose itself and symmetric inputs are symmetric (the library leaves the result undefined otherwise)",
     "default radial vertices: the documentation says 'the largest strongly connected component'; when several components "
